@@ -123,10 +123,10 @@ func (c *vltCase) obs() {
 
 // dry run of rewards.CalculateVaultInterest with the arguments the handler will use: the delta of
 // InterestAccumulated (>= 0), -1 when the call returns an error, -2 when it panics
-func (c *vltCase) dryInterest(ctx sdk.Context, app, ep, vid uint64) int64 {
+func (c *vltCase) dryInterest(ctx sdk.Context, app, ep, vid uint64) sdk.Int {
 	v, found := c.a.VaultKeeper.GetVault(ctx, vid)
 	if !found {
-		return 0
+		return sdk.ZeroInt()
 	}
 	cctx, _ := ctx.CacheContext()
 	var err error
@@ -134,17 +134,17 @@ func (c *vltCase) dryInterest(ctx sdk.Context, app, ep, vid uint64) int64 {
 		err = c.a.Rewardskeeper.CalculateVaultInterest(cctx, app, ep, vid, v.AmountOut.Add(v.InterestAccumulated), v.BlockHeight, v.BlockTime.Unix())
 	})
 	if pan {
-		return -2
+		return sdk.NewInt(-2)
 	}
 	if err != nil {
-		return -1
+		return sdk.NewInt(-1)
 	}
 	v2, _ := c.a.VaultKeeper.GetVault(cctx, vid)
 	d := v2.InterestAccumulated.Sub(v.InterestAccumulated)
-	if !d.IsInt64() || d.IsNegative() {
-		c.t.Fatalf("interest delta out of range: %s", d)
+	if d.IsNegative() {
+		c.t.Fatalf("negative interest delta: %s", d)
 	}
-	return d.Int64()
+	return d
 }
 
 func (c *vltCase) exec(msg sdk.Msg) string {
@@ -369,44 +369,44 @@ func (c *vltCase) randomOp() {
 		}
 		ie := c.dryInterest(c.ctx, app, ep, vid)
 		res := c.exec(vaulttypes.NewMsgDepositRequest(u, app, ep, vid, amt))
-		tr.p("op deposit %d %d %d %d %s %d %s", c.acct(ui), app, ep, vid, amt, ie, res)
+		tr.p("op deposit %d %d %d %d %s %s %s", c.acct(ui), app, ep, vid, amt, ie, res)
 	case kind < 32: // ---- withdraw
 		ie := c.dryInterest(c.ctx, app, ep, vid)
 		amt := c.natural(p.in)
 		if vfound {
-			debt := v.AmountOut.Add(v.InterestAccumulated).AddRaw(vltMax64(ie, 0)).Add(v.ClosingFeeAccumulated)
+			debt := v.AmountOut.Add(v.InterestAccumulated).Add(vltNonNeg(ie)).Add(v.ClosingFeeAccumulated)
 			m := v.AmountIn.Sub(c.minColl(p, debt))
 			amt = c.pickInt(m.SubRaw(1), m, m.AddRaw(1), m, m.QuoRaw(2), m.QuoRaw(3), v.AmountIn, v.AmountIn.SubRaw(1), sdk.NewInt(1), amt)
 			amt = vltPos(amt)
 		}
 		res := c.exec(vaulttypes.NewMsgWithdrawRequest(u, app, ep, vid, amt))
-		tr.p("op withdraw %d %d %d %d %s %d %s", c.acct(ui), app, ep, vid, amt, ie, res)
+		tr.p("op withdraw %d %d %d %d %s %s %s", c.acct(ui), app, ep, vid, amt, ie, res)
 	case kind < 44: // ---- draw
 		ie := c.dryInterest(c.ctx, app, ep, vid)
 		amt := c.natural(p.out)
 		if vfound {
-			d := c.maxDebt(p, v.AmountIn).Sub(v.AmountOut).Sub(v.InterestAccumulated).SubRaw(vltMax64(ie, 0)).Sub(v.ClosingFeeAccumulated)
+			d := c.maxDebt(p, v.AmountIn).Sub(v.AmountOut).Sub(v.InterestAccumulated).Sub(vltNonNeg(ie)).Sub(v.ClosingFeeAccumulated)
 			amt = c.pickInt(d.SubRaw(1), d, d.AddRaw(1), d, d.QuoRaw(2), d.QuoRaw(4), room.SubRaw(1), room, room.AddRaw(1), sdk.NewInt(1), amt)
 			amt = vltPos(amt)
 		}
 		res := c.exec(vaulttypes.NewMsgDrawRequest(u, app, ep, vid, amt))
-		tr.p("op draw %d %d %d %d %s %d %s", c.acct(ui), app, ep, vid, amt, ie, res)
+		tr.p("op draw %d %d %d %d %s %s %s", c.acct(ui), app, ep, vid, amt, ie, res)
 	case kind < 54: // ---- repay
 		ie := c.dryInterest(c.ctx, app, ep, vid)
 		amt := c.natural(p.out)
 		if vfound {
-			in := v.InterestAccumulated.AddRaw(vltMax64(ie, 0))
+			in := v.InterestAccumulated.Add(vltNonNeg(ie))
 			tofloor := in.Add(v.AmountOut).Sub(p.floor)
 			amt = c.pickInt(in, in.AddRaw(1), in.SubRaw(1), tofloor, tofloor.AddRaw(1), tofloor.SubRaw(1), in.Add(v.AmountOut), in.Add(v.AmountOut).AddRaw(1),
 				v.AmountOut.QuoRaw(2), v.AmountOut.QuoRaw(3), sdk.NewInt(1), amt)
 			amt = vltPos(amt)
 		}
 		res := c.exec(vaulttypes.NewMsgRepayRequest(u, app, ep, vid, amt))
-		tr.p("op repay %d %d %d %d %s %d %s", c.acct(ui), app, ep, vid, amt, ie, res)
+		tr.p("op repay %d %d %d %d %s %s %s", c.acct(ui), app, ep, vid, amt, ie, res)
 	case kind < 60: // ---- close
 		ie := c.dryInterest(c.ctx, app, ep, vid)
 		res := c.exec(vaulttypes.NewMsgLiquidateRequest(u, app, ep, vid))
-		tr.p("op close %d %d %d %d %d %s", c.acct(ui), app, ep, vid, ie, res)
+		tr.p("op close %d %d %d %d %s %s", c.acct(ui), app, ep, vid, ie, res)
 	case kind < 66: // ---- deposit and draw
 		amt := c.natural(p.in)
 		if r.chance(10) {
@@ -414,7 +414,7 @@ func (c *vltCase) randomOp() {
 		}
 		i1 := c.dryInterest(c.ctx, app, ep, vid)
 		// second interest call: after the inner deposit, on a throw-away branch
-		i2 := int64(0)
+		i2 := sdk.ZeroInt()
 		cctx, _ := c.ctx.CacheContext()
 		pan, _ := safely(func() {
 			h := a.MsgServiceRouter().Handler(&vaulttypes.MsgDepositRequest{})
@@ -424,14 +424,14 @@ func (c *vltCase) randomOp() {
 		})
 		_ = pan
 		res := c.exec(vaulttypes.NewMsgDepositAndDrawRequest(u, app, ep, vid, amt))
-		tr.p("op depositdraw %d %d %d %d %s %d %d %s", c.acct(ui), app, ep, vid, amt, i1, i2, res)
+		tr.p("op depositdraw %d %d %d %d %s %s %s %s", c.acct(ui), app, ep, vid, amt, i1, i2, res)
 	case kind < 70: // ---- interest calc
-		ie := int64(0)
+		ie := sdk.ZeroInt()
 		if vfound {
 			ie = c.dryInterest(c.ctx, app, v.ExtendedPairVaultID, vid)
 		}
 		res := c.exec(vaulttypes.NewMsgVaultInterestCalcRequest(u, app, vid))
-		tr.p("op interest %d %d %d %s", app, vid, ie, res)
+		tr.p("op interest %d %d %s %s", app, vid, ie, res)
 	case kind < 75: // ---- stable create
 		amt := c.stableAmount(p.in)
 		res := c.exec(vaulttypes.NewMsgCreateStableMintRequest(u, app, ep, amt))
@@ -503,6 +503,13 @@ func (c *vltCase) randomOp() {
 		setPrice(a, c.ctx, as.id, np, active)
 		tr.p("op price %d %s %d ok", as.id, b2s(active), np)
 	}
+}
+
+func vltNonNeg(x sdk.Int) sdk.Int {
+	if x.IsNegative() {
+		return sdk.ZeroInt()
+	}
+	return x
 }
 
 func vltMax64(a, b int64) int64 {
